@@ -226,7 +226,7 @@ def toks (tbl : Table) (alg : AtomAlg A) (lit : List Char → A) : E → List (T
 /-- the tokeniser alone (fresh buffers) -/
 def tokenize (tbl : Table) (alg : AtomAlg A) (steps : List (List String × Otype)) (s : List Char) :
     Except String (List (Tok A)) :=
-  match tokLoop tbl alg (fun a => solve tbl alg steps a) (s.length + 1) ⟨[], s⟩ ⟨[], []⟩ with
+  match tokLoop tbl alg (fun st a => solveI tbl alg steps st a) (s.length + 1) ⟨[], s⟩ ⟨[], []⟩ with
   | .ok b => .ok b.right
   | .error (_, m) => .error m
 
@@ -235,29 +235,58 @@ end SciVerif.C01
 namespace SciVerif.C01
 variable {A : Type}
 
+/-- optional exponent: nothing, or `e` followed by at least one digit and digits only -/
+def expOK : List Char → Bool
+  | [] => true
+  | c :: r => c == 'e' && !r.isEmpty && r.all isDigit
+
 /-- number literals of the grammar: `digits[.digits*][e digits]` or `.digits[e digits]` -/
 def isGrammarLit (s : List Char) : Bool :=
   let ds := s.takeWhile isDigit
-  let r1 := s.dropWhile isDigit
-  let frac := match r1 with
-    | '.' :: r => some (r.takeWhile isDigit, r.dropWhile isDigit)
-    | r => if ds.isEmpty then none else some ([], r)
-  match frac with
-  | none => false
-  | some (fs, r2) =>
-    (!ds.isEmpty || !fs.isEmpty) &&
-    (match r2 with
-     | [] => true
-     | 'e' :: r => !r.isEmpty && r.all isDigit
-     | _ => false)
+  match s.dropWhile isDigit with
+  | [] => !ds.isEmpty
+  | c :: r =>
+      if c = '.' then (!ds.isEmpty || !(r.takeWhile isDigit).isEmpty) && expOK (r.dropWhile isDigit)
+      else !ds.isEmpty && expOK (c :: r)
 
-/-- all literals of an expression are grammar literals which the atom class reads as `lit` says -/
+/-- What the tokenizer needs of a literal: not empty, made of digits, `.` and `e`, every `e`
+    directly followed by a digit.  Every grammar literal is such a text. -/
+def litScan : List Char → Bool
+  | [] => true
+  | c :: r =>
+      if c = 'e' then (match r with | d :: _ => isDigit d | [] => false) && litScan r
+      else (isDigit c || c == '.') && litScan r
+
+def litSafe (t : List Char) : Bool := !t.isEmpty && litScan t
+
+/-- all literals of an expression are tokenizer-safe texts which the atom class reads as `lit` says -/
 def LitOK (alg : AtomAlg A) (lit : List Char → A) : E → Prop
-  | .num t => isGrammarLit t = true ∧ alg.parse t = some (lit t)
+  | .num t => litSafe t = true ∧ alg.parse t = some (lit t)
   | .fn1 _ e => LitOK alg lit e
   | .fn2 _ a b => LitOK alg lit a ∧ LitOK alg lit b
   | .sign _ e => LitOK alg lit e
   | .bin _ l r => LitOK alg lit l ∧ LitOK alg lit r
   | .not e => LitOK alg lit e
+
+end SciVerif.C01
+
+namespace SciVerif.C01
+variable {A : Type}
+
+/-- parenthesis depth after a text, started at depth `k`; `none` when it would become negative -/
+def bal : List Char → Nat → Option Nat
+  | [], k => some k
+  | c :: cs, k =>
+      if c = '(' then bal cs (k + 1)
+      else if c = ')' then (if k = 0 then none else bal cs (k - 1))
+      else bal cs k
+
+/-- the parenthesis depth never goes negative and returns to 0 -/
+def Balanced (s : List Char) : Prop := bal s 0 = some 0
+
+def isParen (c : Char) : Bool := c == '(' || c == ')'
+
+/-- the atom class rejects every text that contains a parenthesis (true of `float()`) -/
+def ParenFree (alg : AtomAlg A) : Prop := ∀ t : List Char, t.any isParen = true → alg.parse t = none
 
 end SciVerif.C01
